@@ -72,4 +72,16 @@ theorem archive_footer :
     afrMetaLenOffset = 16 ∧ afrDataChkSumOffset = 20 ∧ afrVersionOffset = 20 + 3 * 64 ∧ afrSigOffset = 213 ∧
     archiveFormatVersionMax = 3 ∧ archiveVersionGiantIndexSupport = 3 := by decide
 
+/-- format versions 1 and 2 have a footer 4 bytes shorter than version 3, and the data, index and
+metadata spans are all computed from the footer's *actual* size — as `ArcFooter.actualFooterSize` /
+`ArcFooter.indexOffset` in the model do -/
+theorem archive_footer_per_version :
+    Gen.NbsLayout.actualFooterSizeReturns = ["archiveFooterSize - 4", "archiveFooterSize"] ∧
+    Gen.NbsLayout.actualFooterSizeConds = ["f.formatVersion < archiveVersionGiantIndexSupport"] ∧
+    Gen.NbsLayout.dataSpanUsesActualFooterSize = true ∧ Gen.NbsLayout.totalIndexSpanUsesActualFooterSize = true ∧
+    Gen.NbsLayout.metadataSpanUsesActualFooterSize = true ∧
+    (∀ f : ArcFooter, f.actualFooterSize =
+      if f.formatVersion < archiveVersionGiantIndexSupport then archiveFooterSize - 4 else archiveFooterSize) :=
+  ⟨by decide, by decide, by decide, by decide, by decide, fun _ => rfl⟩
+
 end DoltVerif.Tie.NbsLayout
